@@ -40,6 +40,25 @@ def handle : List String → String
       | .fresh r => "fresh " ++ ttls r
       | .stale r => "stale " ++ ttls r
     | _, _, _, _, _, _ => "bad-op"
+  | ["lazyseq", cbs, lazy, st, elapsed, msgIn, cacheIn, rrs, chain, nrcode, ntc, nrrs, hits] =>
+    match Hex.bool? cbs, lazy.toInt?, st.toNat?, elapsed.toNat?, msgIn.toInt?, cacheIn.toInt?, msg? "0" "0" rrs, msg? nrcode ntc nrrs,
+          (hits.splitOn ",").mapM (·.toNat?) with
+    | some cbs, some lz, some st, some el, some mi, some ci, some m, some nm, some hs =>
+      let T : Nat := 1000000000000000000
+      let it : Item := ⟨m, T - el, (T + mi).toNat, (T + ci).toNat⟩
+      let ch : Option Chain := if chain == "keep" then some id else if chain == "guard" then some (guarded nm)
+        else if chain == "answer" then some (fun _ => some nm) else none
+      match ch with
+      | none => "bad-op"
+      | some ch =>
+        let out := lazyRun cbs lz (UInt32.ofNat st) ch it (hs.map (T + ·))
+        -- the harness gives the upstream's new answer a different number of answer records than the old one
+        let tag := fun (r : Msg) => if r.answer.length == m.answer.length then "old" else "new"
+        String.intercalate "/" (out.map fun
+          | .miss => "miss"
+          | .fresh r => s!"{tag r} fresh {ttls r}"
+          | .stale r => s!"{tag r} stale {ttls r}")
+    | _, _, _, _, _, _, _, _, _ => "bad-op"
   | _ => "bad-op"
 
 end Driver.C05
